@@ -138,8 +138,10 @@ def run_C11(tier, seed):
                 res.breach(f"observer-constructible:{name}", f"{name}(dispatcher) raised {type(e).__name__}: "
                            f"{str(e)[:120]}", jobs=jobs, observer=name)
         for flt_name in ([None, "dominated_operations", "non_idle_machines"] if positive else [None]):
+            # one instance object for all walks: later dispatchers and observers are built on an instance that
+            # earlier ones have already worked with (its cached views must not have been touched)
+            inst = build_instance(jobs)
             for _ in range(walks):
-                inst = build_instance(jobs)
                 d = Dispatcher(inst, ready_operations_filter=FILTERS.get(flt_name))
                 dref = Dispatcher(inst, ready_operations_filter=FILTERS.get(flt_name))
                 obs = {}
